@@ -42,7 +42,7 @@ func (c05) Cases(tier string) int {
 func (c05) Describe() core.Info {
 	return core.Info{
 		Level: "exploration",
-		Rule: "two workloads (plus, every 8th plain case, a small program over unary predicates that mention each other positively and through negation in any direction - about half are not stratifiable; when the baseline presentation is rejected by analysis every other presentation must be rejected too: sig accepted-only-in-variant). (a) typed random programs (recursion, negation, comparisons, functions, let- and do-transforms with order-insensitive reducers: count/sum/min/max/avg over small integers/collect_distinct read as a set); (b) temporal programs: chains and diamonds of rules with interval-annotated heads and bodies and the four operators over base and derived temporal predicates, evaluated with a temporal store at a fixed evaluation time. Each program is evaluated once as baseline and then under: shuffled clauses, shuffled base facts (preloaded), consistent variable renaming (also to the library's own fresh names X0, X1, ...), equalities and inequalities written the other way round, predicate renaming (mapped back), wrapping in 'Package pk!' via the parser (names mapped back), every store implementation (incl. a merged store over a lazily read simple-column file, and a re-evaluation over a saved random half of a first evaluation's facts), WithDeterministicOrder, and 5 plain repetitions (fresh Go maps, fresh iteration orders). Oracle: all canonical fact sets (temporal facts with their intervals) are equal. Non-trivial: >= 2 strata or a recursion candidate and >= 3 derived facts; distinct by program.",
+		Rule: "two workloads (plus, every 8th plain case, a small program over unary predicates that mention each other positively and through negation in any direction - about half are not stratifiable; when the baseline presentation is rejected by analysis every other presentation must be rejected too: sig accepted-only-in-variant). (a) typed random programs (recursion, negation, comparisons, functions, let- and do-transforms with order-insensitive reducers: count/sum/min/max/avg over small integers/collect_distinct read as a set); (b) temporal programs: chains and diamonds of rules with interval-annotated heads and bodies and the four operators over base and derived temporal predicates, evaluated with a temporal store at a fixed evaluation time. Each program is evaluated once as baseline and then under: shuffled clauses, shuffled base facts (preloaded), consistent variable renaming (also to the library's own fresh names X0, X1, ...), equalities and inequalities written the other way round, negated atoms moved to the front of their bodies (the library delays them), predicate renaming (mapped back), wrapping in 'Package pk!' via the parser (names mapped back), every store implementation (incl. a merged store over a lazily read simple-column file, and a re-evaluation over a saved random half of a first evaluation's facts), WithDeterministicOrder, and 5 plain repetitions (fresh Go maps, fresh iteration orders). Oracle: all canonical fact sets (temporal facts with their intervals) are equal. Non-trivial: >= 2 strata or a recursion candidate and >= 3 derived facts; distinct by program.",
 		Assumptions: []string{"internal *__tmp predicates are excluded from the comparison", "the printed program text is parsed back for the package variant (print/parse round trip is C09's property)"},
 		PerCaseTimeout: 120e9,
 	}
@@ -64,7 +64,7 @@ func (c05) Gen(r *rand.Rand, tier string, i int) any {
 		c.Text = progText(p)
 		return c
 	}
-	o := gen.ProgOpts{Negation: true, Compare: true, Functions: r.Intn(2) == 0, Lists: r.Intn(3) == 0, Let: true, Do: r.Intn(2) == 0, DoPercent: 50, Mix: r.Intn(3) == 0, DoWildcards: true,
+	o := gen.ProgOpts{Negation: true, Compare: true, Functions: r.Intn(2) == 0, Lists: r.Intn(3) == 0, Let: true, Do: r.Intn(2) == 0, DoPercent: 50, Mix: r.Intn(3) == 0, DoWildcards: true, MoreNegation: r.Intn(3) == 0,
 		Wildcards: r.Intn(2) == 0, Shuffle: 0, FnInAtoms: true, Reducers: []string{"fn:count", "fn:sum", "fn:min", "fn:max", "fn:avg", "fn:collect_distinct"}}
 	p := gen.RandProgram(r, o)
 	c.Prog = &p
@@ -367,6 +367,25 @@ func c05Variants(c c05Case) (baseline func() (resultSet, error), vs []c05Variant
 			sw.Rules[i] = nr
 		}
 		vs = append(vs, c05Variant{"swapped-equalities", func() (resultSet, error) { return evalPlain(sw, "multiarray", true, cols, nil) }})
+		// negated atoms written first: the library moves a negated atom behind the premises that bind its
+		// variables, so its place in the body carries no meaning
+		nf := p
+		nf.Rules = make([]gen.ClauseV, len(p.Rules))
+		for i, rule := range p.Rules {
+			nr := rule
+			var negs, rest []gen.LitV
+			for _, l := range rule.Body {
+				if l.K == "neg" {
+					negs = append(negs, l)
+				} else {
+					rest = append(rest, l)
+				}
+			}
+			r.Shuffle(len(negs), func(a, b int) { negs[a], negs[b] = negs[b], negs[a] })
+			nr.Body = append(negs, rest...)
+			nf.Rules[i] = nr
+		}
+		vs = append(vs, c05Variant{"negations-first", func() (resultSet, error) { return evalPlain(nf, "multiarray", true, cols, nil) }})
 		// renamed predicates
 		rp := renamePreds(p, func(s string) string { return "zz_" + s })
 		colsR := setColPreds(rp)
@@ -452,7 +471,7 @@ func c05Exec(c c05Case, res *core.Result) (skip string, fail *evalFail) {
 				// only presentations that submit the same clauses in the same form (facts as clauses):
 				// preloaded facts, or a text with declarations, are legitimately analysed differently
 				switch variantClass(v.name) {
-				case "shuffled-clauses", "renamed-variables", "renamed-variables-like-fresh", "swapped-equalities", "renamed-predicates", "repetition", "deterministic-order":
+				case "shuffled-clauses", "renamed-variables", "renamed-variables-like-fresh", "swapped-equalities", "negations-first", "renamed-predicates", "repetition", "deterministic-order":
 				default:
 					continue
 				}
